@@ -1,11 +1,15 @@
 package limits
 
 import (
+	"bytes"
+	"compress/gzip"
 	"fmt"
+	"io"
 	"math"
 	"math/rand"
 	"strconv"
 	"strings"
+	"sync"
 
 	"google.golang.org/protobuf/encoding/protojson"
 	"google.golang.org/protobuf/encoding/protowire"
@@ -51,6 +55,11 @@ type Case struct {
 	// messages are gzip-compressed), "1-nohdr" = compressed messages with
 	// flag 1 although no encoding was negotiated.
 	Flags string `json:"flags,omitempty"`
+	// GzipMode is how compressed request payloads are built: "" = one gzip
+	// member, "multi" = several concatenated members (RFC 1952 2.2) with a
+	// tiny last one, "isize" = one member whose ISIZE trailer field is forged
+	// to 1 (an invalid stream: must fail or at least never be delivered).
+	GzipMode string `json:"gzip_mode,omitempty"`
 	// AcceptGzip: the HTTP request carries Accept-Encoding: gzip (replies may
 	// be compressed by the server; the client inflates them).
 	AcceptGzip bool `json:"accept_gzip,omitempty"`
@@ -125,10 +134,59 @@ func (c *Case) lane() string {
 	case "1-nohdr":
 		s += "/flag1-no-encoding"
 	}
+	switch c.GzipMode {
+	case "multi":
+		s += "/multi-member"
+	case "isize":
+		s += "/forged-isize"
+	}
 	if c.AcceptGzip {
 		s += "/accept-gzip"
 	}
 	return s
+}
+
+var gzPool = sync.Pool{New: func() interface{} { return gzip.NewWriter(io.Discard) }}
+
+// gzipBytes compresses b as one gzip member (default level, as wire.Gzip)
+// with a pooled writer: a fresh deflate state per call costs more than a
+// megabyte of allocation.
+func gzipBytes(b []byte) []byte {
+	var buf bytes.Buffer
+	w := gzPool.Get().(*gzip.Writer)
+	w.Reset(&buf)
+	w.Write(b)
+	w.Close()
+	gzPool.Put(w)
+	return buf.Bytes()
+}
+
+// compress builds the gzip form of a request payload per GzipMode.
+func (c *Case) compress(b []byte) []byte {
+	switch c.GzipMode {
+	case "multi":
+		// all but the last byte(s) in the first member(s), one byte in the last
+		var parts [][]byte
+		switch {
+		case len(b) >= 64:
+			h := len(b) / 2
+			parts = [][]byte{b[:h], b[h : len(b)-1], b[len(b)-1:]}
+		case len(b) >= 2:
+			parts = [][]byte{b[:len(b)-1], b[len(b)-1:]}
+		default:
+			parts = [][]byte{b, {}}
+		}
+		var out []byte
+		for _, p := range parts {
+			out = append(out, gzipBytes(p)...)
+		}
+		return out
+	case "isize":
+		z := gzipBytes(b)
+		copy(z[len(z)-4:], []byte{1, 0, 0, 0})
+		return z
+	}
+	return gzipBytes(b)
 }
 
 func (c *Case) key(observable string) string {
